@@ -284,8 +284,10 @@ def finish(pid, prop, tier, seed, repo, results, canaries, wall):
             explanation='bounded symbolic model checking of the lifted fxpmath source (engine SX, QF_BV verdict queries); see DESIGN.md'),
         assumptions=getattr(prop, 'ASSUMPTIONS', []),
         wall_s=round(wall, 2), violations=len(violations))
-    os.makedirs(os.path.join(VERIF, 'evidence'), exist_ok=True)
-    json.dump(ev, open(os.path.join(VERIF, 'evidence', pid + '.json'), 'w'), indent=1)
+    # evidence/<id>.json describes runs against /repo; a run pointed at another checkout (SX_REPO, seeded changes) writes elsewhere
+    evdir = os.path.join(VERIF, 'evidence') if os.path.realpath(repo) == '/repo' else os.path.join(VERIF, 'scratch', 'evidence-other-checkout')
+    os.makedirs(evdir, exist_ok=True)
+    json.dump(ev, open(os.path.join(evdir, pid + '.json'), 'w'), indent=1)
     print('%s %s: %d configurations, %d paths, %d obligations (%d syntactic, %d solver, %d undecided), %d witnesses validated, '
           '%d violations, %d known, %.1fs wall, solver %.1fs' % (pid, tier, len(main_r), paths, tot('obligations'), tot('syntactic'),
                                                              tot('by_solver'), undecided, tot('validated'), len(violations), len(known), wall,
